@@ -356,6 +356,35 @@ class Run(RunBase):
         elif w == "light":
             for lt in net.traffic_lights:
                 lt.get_state_at_time_step(op["t"])
+        elif w == "registry":
+            la.dynamic_obstacle_by_time_step(op["t"]), la.static_obstacles_on_lanelet, la.dynamic_obstacles_on_lanelet  # noqa
+            la.get_obstacles([o for o in self.sc.static_obstacles + self.sc.dynamic_obstacles
+                              if o.occupancy_at_time(op["t"]) is not None], op["t"])
+        elif w == "merge_predecessors":
+            type(la).all_lanelets_by_merging_predecessors_from_lanelet(la, net, op["range"])
+        elif w == "by_id":
+            for i in (op["lanelet"], 99999):
+                net.find_lanelet_by_id(i), net.find_traffic_sign_by_id(i), net.find_traffic_light_by_id(i)
+                net.find_intersection_by_id(i), net.find_area_by_id(i)
+            for t in net.traffic_lights:
+                net.get_traffic_lights_referenced_lanelets(t.traffic_light_id)
+            for it in net.intersections:
+                it.map_incoming_lanelets, it.incomings, it.crossings  # noqa
+            la.convert_to_polygon()
+        elif w == "derive":
+            # new networks derived from this one: the source must stay as it is
+            type(net).create_from_lanelet_list(net.lanelets)
+            type(net).create_from_lanelet_list(net.lanelets, cleanup_ids=False)
+            type(net).create_from_lanelet_network(net, shape_input=build.build_shape(op["shape"]))
+            type(net).create_from_lanelet_network(net)
+        elif w == "trajectories":
+            for o in self.sc.dynamic_obstacles:
+                p = o.prediction
+                if isinstance(p, TrajectoryPrediction):
+                    tr = p.trajectory
+                    tr.states_in_time_interval(op["t"], op["t"] + 3), tr.final_state, tr.state_at_time_step(op["t"])
+                    tr.check_state_list(tr.state_list)
+                    p.initial_time_step, p.final_time_step  # noqa
         elif w == "sign_interpreter":
             from commonroad.scenario.traffic_sign_interpreter import TrafficSignInterpreter
             from commonroad.scenario.traffic_sign import SupportedTrafficSignCountry
@@ -510,11 +539,12 @@ def _inspector(rng, run, cfg):
         elif k == "q_network" and lan:
             what = rng.pick(["by_position", "by_shape", "distance", "interpolate", "polygon", "successors",
                              "merge_successors", "proximity", "map_obstacles", "most_likely", "contains", "orientation",
-                             "light", "lookups", "sign_interpreter", "merge_pair"])
+                             "light", "lookups", "sign_interpreter", "merge_pair", "registry", "merge_predecessors",
+                             "by_id", "derive", "trajectories"])
             op = {"op": k, "what": what, "lanelet": rng.pick(lan), "t": rng.randint(0, 20),
                   "range": rng.uniform(1.0, 60.0), "s": rng.uniform(0.0, 1.0),
                   "pts": [[rng.uniform(-60, 60), rng.uniform(-60, 60)] for _ in range(rng.randint(2, 4))]}
-            if what == "by_shape":
+            if what in ("by_shape", "derive"):
                 op["shape"] = gen._place(gen.gen_shape(rng, ("rect", "circ", "poly"), 3.0),
                                          [rng.uniform(-40, 40), rng.uniform(-40, 40)], rng.uniform(-3, 3))
             if what == "interpolate" and rng.chance(cfg["p_bad"]):
